@@ -99,6 +99,10 @@ func find(name string) *codec {
 }
 
 // one input: returns failures (sig, msg)
+// lastMsg: the message parsed from the previous accepted input of each codec.  Serialising
+// it again must not disturb bytes returned by an earlier ToBytes call.
+var lastMsg = map[string]any{}
+
 func judge(c *codec, in []byte) (sig, msg string, accepted bool) {
 	defer func() {
 		if r := recover(); r != nil {
@@ -142,6 +146,16 @@ func judge(c *codec, in []byte) (sig, msg string, accepted bool) {
 	if !reflect.DeepEqual(normalize(m), normalize(m2)) {
 		return "encode-decode-differs:" + c.name, fmt.Sprintf("%s: message %+v serialises to %x which parses to %+v", c.name, m, out, m2), true
 	}
+	// the bytes ToBytes returned belong to this message: serialising another message (the
+	// previously accepted one) leaves them alone
+	if prev, ok := lastMsg[c.name]; ok {
+		snap := append([]byte(nil), out...)
+		if other, err := c.enc(prev); err == nil && !bytes.Equal(out, snap) {
+			lastMsg[c.name] = m
+			return "serialised-bytes-overwritten:" + c.name, fmt.Sprintf("%s: ToBytes returned %x; after another message was serialised (to %x) the same slice reads %x", c.name, snap, other, out), true
+		}
+	}
+	lastMsg[c.name] = m
 	return "", "", true
 }
 
@@ -240,7 +254,7 @@ func main() {
 	runner.Main(&runner.Harness{
 		ID:          "C18",
 		Level:       "model_checking",
-		Rule:        "for each exported wire-message type (OpenVPN header/plain/auth/crypt/crypt2/wrapped key, WireGuard initiation/transport, Winbox auth, RDP TPKT/X.224/token/negotiation request/correlation info): every length from 0 to size+3 (variable messages: min..min+40, thorough +300; Winbox up to 520) in three fill patterns, well-formed Winbox messages from an independent encoder for every user-name length 1..520 (plain and RoMON, both parities), every byte-slice literal of the module's tests with all prefixes, extensions and single-position substitutions, and the counter pattern at the size bounds with all single-position substitutions; oracle: accepted => ToBytes(FromBytes(b)) == b and FromBytes(ToBytes(m)) == m; fixed-size messages reject every other length; no panic; states = distinct (type, input) pairs",
+		Rule:        "for each exported wire-message type (OpenVPN header/plain/auth/crypt/crypt2/wrapped key, WireGuard initiation/transport, Winbox auth, RDP TPKT/X.224/token/negotiation request/correlation info): every length from 0 to size+3 (variable messages: min..min+40, thorough +300; Winbox up to 520) in three fill patterns, well-formed Winbox messages from an independent encoder for every user-name length 1..520 (plain and RoMON, both parities), every byte-slice literal of the module's tests with all prefixes, extensions and single-position substitutions, and the counter pattern at the size bounds with all single-position substitutions; oracle: accepted => ToBytes(FromBytes(b)) == b and FromBytes(ToBytes(m)) == m, and the returned bytes are not disturbed by serialising another message afterwards; fixed-size messages reject every other length; no panic; states = distinct (type, input) pairs",
 		Assumptions: []string{"equality of messages is structural (nil and empty slices equal)"},
 		Scenarios: func(tier string, yield func(any) bool) {
 			for _, c := range codecs {
@@ -253,6 +267,8 @@ func main() {
 			sc := scAny.(*Scn)
 			c := find(sc.Codec)
 			rep.Scenarios++
+			delete(lastMsg, c.name)
+			var seq runner.Seq // history = the previously accepted input of this codec
 			inputs(c, tier, func(in []byte) bool {
 				sig, msg, acc := judge(c, in)
 				rep.Executions++
@@ -262,10 +278,13 @@ func main() {
 					rep.Nontrivial++
 				}
 				rep.Outcome(uint64(len(in))<<8 | uint64(len(sig)&0xff) | uint64(len(sc.Codec))<<32)
+				one := *sc
+				one.Input = hex.EncodeToString(in)
 				if sig != "" {
-					one := *sc
-					one.Input = hex.EncodeToString(in)
-					rep.Fail(&one, sig, msg, nil)
+					seq.FailAfter(rep, &one, sig, msg, nil)
+				}
+				if acc {
+					seq.Done(&one, nil)
 				}
 				return !rep.Expired()
 			})
@@ -276,6 +295,24 @@ func main() {
 		},
 		Replay: func(scAny any, _ []int) []explore.Failure {
 			sc := scAny.(*Scn)
+			in, _ := hex.DecodeString(sc.Input)
+			delete(lastMsg, sc.Codec)
+			sig, msg, _ := judge(find(sc.Codec), in)
+			if sig == "" {
+				return nil
+			}
+			return []explore.Failure{{Sig: sig, Msg: msg}}
+		},
+		ReplayH: func(hist []runner.HistItem, scAny any, _ []int) []explore.Failure {
+			sc := scAny.(*Scn)
+			delete(lastMsg, sc.Codec)
+			for _, it := range hist {
+				hs := &Scn{}
+				if json.Unmarshal(it.Scenario, hs) == nil {
+					b, _ := hex.DecodeString(hs.Input)
+					judge(find(hs.Codec), b)
+				}
+			}
 			in, _ := hex.DecodeString(sc.Input)
 			sig, msg, _ := judge(find(sc.Codec), in)
 			if sig == "" {
